@@ -5,7 +5,7 @@
    A refusal that comes from a silently altered precondition is still caught: then the applicability unit of the
    same probe returned a value that differs from the reading's. *)
 From Coq Require Import List Ascii String Bool Arith PrimFloat.
-From Verif Require Import Base.Result Base.Str Base.Sexp Spec.Pddl Corr.Common Corr.Core.
+From Verif Require Import Base.Result Base.Str Base.Sexp Spec.Pddl Spec.Fragment Corr.Common Corr.Core.
 Import ListNotations.
 Open Scope string_scope.
 Open Scope list_scope.
@@ -29,11 +29,25 @@ Definition probe_verdicts_c01 (c : cworld) (p : probe) : list verdict :=
   | l => l
   end.
 
+(* the text is a domain of the supported fragment G (Spec/Fragment.v): then the library must accept it
+   (C01_supported_accepted on the implementation's side) *)
+Definition in_G (c : cworld) : bool :=
+  match world_sexp (cw c) with Ok e => G (numtab (cw c)) e | Err _ => false end.
+
+Definition world_verdict_c01 (c : cworld) : verdict :=
+  let v := world_verdict (cw c) in
+  {| v_agree := v_agree v;
+     v_ok := v_ok v && (negb (in_G c) || negb (obs_raised (w_parsed (cw c))));
+     v_known := v_known v |}.
+
 Definition judge (c : cworld) : list verdict :=
   match w_parsed (cw c) with
-  | Raised => [world_verdict (cw c)]
-  | Returned _ => world_verdict (cw c) :: flat_map (probe_verdicts_c01 c) (w_probes (cw c))
+  | Raised => [world_verdict_c01 c]
+  | Returned _ => world_verdict_c01 c :: flat_map (probe_verdicts_c01 c) (w_probes (cw c))
   end.
+
+(* how many of the worlds are in G (reported in the evidence) *)
+Definition count_in_G (cs : list cworld) : nat := List.length (filter in_G cs).
 
 Definition run (cs : list cworld) : string := t2s (map verdict_char (flat_map judge cs)).
 
